@@ -96,6 +96,7 @@ def check(ctx):
     failed_trial_probe(ctx)
     additive_object_parameter_probe(ctx)
     substitution_sequence_probe(ctx)
+    round6_probes(ctx)
 
 
 def oracle(ctx):
@@ -473,6 +474,90 @@ def substitution_sequence_probe(ctx):
         compare("original at the end", a0, x0)
     except Exception as e:
         ctx.fail("oracle", "jac:substitution-sequence:exception", {}, repr(e)[:300], "products of the operator")
+
+
+def round6_probes(ctx):
+    """(a) hess() of a method of a torch.nn.Module that holds ONE Parameter under two names (tied weights) followed by another
+    Parameter, with the operator's parameters replaced through uselinopparams: products equal the dense Hessian at the parameters in
+    force and the module holds its own tensors afterwards (round-6 seed C17/15: the sibling wrapper listed the de-duplicated
+    parameters, the second name received the next parameter's tensor).  (b) jac() of a function whose parameter has infinite entries
+    away from its first element (a mask) while the function is finite: every product is finite and equals the dense one (C17/16: the
+    dummy graph connection became p.sum() * 0)"""
+    from xitorch.grad import jac, hess
+    g = torch.Generator().manual_seed(ctx.seed + 67)
+
+    class Tied(torch.nn.Module):
+        def __init__(self, w, c):
+            super().__init__()
+            self.w1 = w
+            self.w2 = w
+            self.c = c
+
+        def forward(self, x):
+            return (self.w1 * x ** 3).sum() + (self.w2 * x ** 2).sum() + (self.c * x ** 4).sum()
+    fun = lambda x, w, c: (w * x ** 3).sum() + (w * x ** 2).sum() + (c * x ** 4).sum()
+    n = 3
+    mkp = lambda off: torch.nn.Parameter(torch.rand(n, dtype=DT, generator=g) + off)
+    w, c = mkp(0.5), mkp(0.5)
+    x = (torch.rand(n, dtype=DT, generator=g) + 0.5).requires_grad_()
+    m = Tied(w, c)
+    ctx.count(("hess-tied-weights",), nontrivial=True)
+    try:
+        with warnings.catch_warnings():
+            warnings.simplefilter("ignore")
+            hs = hess(m.forward, (x,), idxs=0)
+            H0 = hs.fullmatrix()
+            x2, w2, c2 = [(torch.rand(n, dtype=DT, generator=g) + off).requires_grad_() for off in (0.5, 2.0, 4.0)]
+            new = [x2 if p is x else (w2 if p is w else (c2 if p is c else p)) for p in hs.getlinopparams()]
+            v = torch.rand(2, n, dtype=DT, generator=g)
+            with hs.uselinopparams(*new):
+                H1 = hs.fullmatrix()
+                Hv = hs.mv(v)
+            H2 = hs.fullmatrix()
+    except Exception as e:
+        ctx.fail("oracle", "hess:tied-weights:exception", {}, repr(e)[:300], "products of the Hessian operator")
+    else:
+        R0 = torch.autograd.functional.hessian(lambda xx: fun(xx, w, c), x)
+        R1 = torch.autograd.functional.hessian(lambda xx: fun(xx, w2, c2), x2)
+        dm = lambda t: float(t.detach().abs().max())
+        errs = {"construction": dm(H0 - R0), "substituted": dm(H1 - R1), "substituted_mv": dm(Hv - v @ R1.T), "restored": dm(H2 - R0)}
+        held = m.w1 is w and m.w2 is w and m.c is c
+        if not held or any(not e <= 1e-9 for e in errs.values()):
+            ctx.fail("oracle", "hess:tied-weights", {"module": "w1 is w2 (tied), c", "sequence": "hess(); uselinopparams(x2, w2, c2); products; exit"},
+                     dict(errs, module_holds_its_tensors=held), "dense Hessian at the parameters in force")
+    # (b)
+    n = 4
+    mask = torch.triu(torch.full((n, n), float("-inf"), dtype=DT), diagonal=1)
+    W = torch.randn(n, n, dtype=DT, generator=g).requires_grad_()
+    y = torch.randn(n, dtype=DT, generator=g).requires_grad_()
+    f = lambda yy, WW, mm: torch.softmax(WW + mm, dim=-1) @ torch.tanh(yy)
+    ctx.count(("jac-infinite-mask",), nontrivial=True)
+    try:
+        with warnings.catch_warnings():
+            warnings.simplefilter("ignore")
+            import xitorch as xt
+
+            class Layer(xt.EditableModule):
+                def __init__(self, W_, mask_):
+                    self.W = W_
+                    self.mask = mask_
+
+                def forward(self, yy):
+                    return f(yy, self.W, self.mask)
+
+                def getparamnames(self, methodname, prefix=""):
+                    return [prefix + "W", prefix + "mask"]
+            J = jac(Layer(W, mask).forward, (y,), idxs=0)
+            vv = torch.randn(n, dtype=DT, generator=g)
+            outs = {"mv": J.mv(vv), "rmv": J.rmv(vv), "fullmatrix": J.fullmatrix(), "H.mv": J.H.mv(vv)}
+    except Exception as e:
+        ctx.fail("oracle", "jac:infinite-mask:exception", {}, repr(e)[:300], "products")
+    else:
+        Jd = torch.autograd.functional.jacobian(lambda yy: f(yy, W.detach(), mask), y.detach())
+        ref = {"mv": Jd @ vv, "rmv": Jd.T @ vv, "fullmatrix": Jd, "H.mv": Jd.T @ vv}
+        bad = {k: float((outs[k].detach() - ref[k]).abs().max()) for k in outs if not float((outs[k].detach() - ref[k]).abs().max()) <= 1e-9}
+        if bad:
+            ctx.fail("oracle", "jac:infinite-mask", {"function": "EditableModule holding W and a mask with -inf above the diagonal"}, bad, "finite products equal to the dense Jacobian's")
 
 
 def search(ctx):
